@@ -130,9 +130,10 @@ def gen(rng, tier):
             r = rng.random()
             if r < 0.75:
                 files, exp = [], []
-                filters = rng.choice([EXTS, [".java"], [".py", ".go"], EXTS])
+                filters = rng.choice([EXTS, [".java"], [".py", ".go"], EXTS, [".d.ts", ".spec.js"], [".gradle.kts", ".java"]])
                 for k in range(rng.choice([1, 1, 2, 3])):
-                    ext = rng.choice(EXTS + [".txt", ".md", ".javax"])
+                    # compound extensions are selected by their whole suffix: types.d.ts, app.spec.js, build.gradle.kts
+                    ext = rng.choice(EXTS + [".txt", ".md", ".javax", ".d.ts", ".spec.js", ".gradle.kts"])
                     path = rng.choice(["", "src/", "a/b/"]) + "f%d%s" % (k, ext)
                     segs = rand_segments(rng)
                     if rng.random() < 0.1:
